@@ -56,37 +56,54 @@ LEVEL_TEXT = ("Coq theorems, all for every base B >= 2, mode, precision p >= 1 a
               "tables regenerated from float/src/round.rs pick exactly the neighbour the mode names (T_round); the specification rounding "
               "meets the documented contract (error < 1, <= 1/2 for nearest modes, side, ties). Round::round_fract is modelled WITH its f32 "
               "log2 pre-filter: for every pair of coarse tests that answer only when the strict comparison holds it equals the exact "
-              "comparison (C03_round_fract_filtered), and the two f32 comparisons of the code are such a pair for every monotone rounding "
-              "of the last sum / product, all sound log2 bounds and every precision below 2^24 digits (C03_round_fract_f32: the conjecture "
-              "that the filter is unsound above ~16 700 bits is refuted - monotone rounding cannot flip the comparison). The as-is models of "
-              "repr_round / mul / sqr / cubic satisfy the contract; division: repr_div returns the exact quotient exactly when the scaled "
-              "remainder is zero, otherwise the specification rounding of the exact quotient at a digit position keeping p or p+1 digits "
-              "with a truthful AddOne/SubOne flag (C03_div_rounded), which is the documented contract clause by clause "
-              "(C03_rounded_quot_is_the_contract: error below one unit <= 1 ulp, half unit for nearest modes, side, flags, <= p+1 digits, a "
-              "representable quotient is never flagged inexact) and, over the reals, against the real quotient x of the operands: |r - x| < "
-              "ulp_p(x), <= ulp_p(x)/2 for nearest modes, side, flags, Exact iff r = x (C03_div_contract_R); Context::div (pre-shrinking test, any digit estimates), Context::inv, the "
-              "four ownership forms of FBig * and /, operands with different precisions (Context::max) and primitive / IBig operands "
-              "(FBig::from first) are proved equal to ctx_mul / repr_div at p = max(p1, p2) (C03_ctx_div_inv, C03_mul_div_operator_forms, "
+              "comparison (C03_round_fract_filtered), and the two f32 comparisons of the code are such a pair for all sound log2 bounds and "
+              "every precision below 2^24 digits - first for every monotone rounding (C03_round_fract_f32), and in round 3 for the rounding "
+              "of IEEE binary32 itself, taken from Flocq: fl32 = round radix2 (FLT_exp (-149) 24) ZnearestE is what b32_plus / b32_mult "
+              "return without overflow, is monotone, fixes 1 and every integer below 2^24, so no assumption about f32 arithmetic is left "
+              "(C03_round_fract_flocq32, C03_fl32_is_binary32_rounding). The as-is models of repr_round / mul / sqr / cubic satisfy the "
+              "contract; division: repr_div returns the exact quotient exactly when the scaled remainder is zero, otherwise the "
+              "specification rounding of the exact quotient at a digit position keeping p or p+1 digits with a truthful AddOne/SubOne flag "
+              "(C03_div_rounded), which is the documented contract clause by clause (C03_rounded_quot_is_the_contract) and, over the reals, "
+              "against the real quotient (C03_div_contract_R); Context::div, Context::inv, the four ownership forms of FBig * and /, "
+              "operands with different precisions and primitive / IBig operands (C03_ctx_div_inv, C03_mul_div_operator_forms, "
               "C03_primitive_operand_forms); addition/subtraction (far-apart stand-in, three alignment branches, three re-alignment cases, "
               "zero and equal-exponent paths, four operator bodies) return the specification rounding of the exact sum keeping p or p+1 "
               "digits (C03_add, C03_sub, C03_add_operator_forms, C03_rounded_sum_is_the_contract); sqrt rounds the integer root of the "
-              "exactly scaled radicand once to exactly p digits (C03_sqrt). The executable checker that judges every case is proved sound "
-              "for rational exact values: check_contract = true implies, over the reals, |r - x| < ulp_p(x) with ulp_p(x) = B^(e_x - p + 1) "
-              "and B^e_x <= |x| < B^(e_x + 1), <= ulp/2 for nearest modes, the prescribed side, truthful flags, Exact iff r = x, x not "
-              "representable in p digits when flagged inexact, at most p+1 digits (C03_check_contract_sound, C03_rat_exp, C03_cmp_kx, "
-              "C03_check_contract_magnitude). Every implementation answer of add/sub/mul/div/sqrt/sqr/cubic/inv, of the FBig operators in "
-              "every form and of Round::round_fract called directly (near-half low parts at 8 000 .. 400 000 bits) is decided by that "
-              "checker / the exact comparison and compared with the as-is models.")
+              "exactly scaled radicand once to exactly p digits (C03_sqrt). ROUND 3, operands LONGER than the precision (outside the "
+              "premise of the property, inside what the Context methods accept): Context::add / sub (as repaired) meet the same contract "
+              "for operands of ANY length outside the exactly characterised class add_overlong_cancellation, which an effective addition "
+              "never enters (C03_add_any_length, C03_sub_any_length, C03_round_sum_any_input, C03_add_same_sign_never_short; "
+              "C03_add_overlong_refuted); mul / sqr / cubic / div meet it up to their pre-shrinking thresholds 2p / 2p / 3p / p + "
+              "digits(divisor), regenerated from mul.rs (C03_mul_sqr_cubic_upto_thresholds, C03_div_upto_threshold), beyond them the "
+              "operand is rounded first (C03_div_beyond_threshold_shrinks; C03_overlong_double_rounding_refuted); sqrt of a radicand of "
+              "any length is ONE rounding of sqrt(M/K), M/K the scaled or cut radicand, exact only if nothing was cut off (repaired), with "
+              "the tie that appears once a part is cut (C03_sqrt_any_length, C03_sqrt_frac_is_the_contract). Context::rem: the three "
+              "alignment cases compute the remainder of least magnitude (ties away) exactly, then ONE rounding (C03_rem, "
+              "C03_rem_alignment_cases, C03_rem_least); div_euclid is exact, rem_euclid one rounding of the Euclidean remainder "
+              "(C03_euclid); FBig sqr / cubic / sqrt / inv and + / - with primitive operands (C03_unary_forms, C03_primitive_add_forms). "
+              "Normalisation: models that contain every Repr::new of the code return a stored Repr (zero = (0,0), else not divisible by "
+              "the base, also after a carry) for stored operands and equal the pinned model followed by one normalisation "
+              "(C03_results_are_normalised, C03_models_with_normalisation). The executable checker that judges every case is proved sound "
+              "for rational exact values (C03_check_contract_sound, C03_rat_exp, C03_cmp_kx, C03_check_contract_magnitude). Every "
+              "implementation answer of add/sub/mul/div/sqrt/sqr/cubic/inv (operands that fit AND over-long ones), rem, the Euclidean "
+              "forms, the FBig operators in every form and Round::round_fract called directly is decided by that checker / the exact "
+              "comparison, must be a normalised Repr, and is compared digit for digit with the models that contain every Repr::new.")
 LEVEL_NOTE = ("Only compared, not proved: (1) the hand-written models are tied to the code by the correspondence run (model fidelity is "
               "measured and must be 100%) and by the fragments regenerated on every run (rounding tables, add.rs / root.rs constants, the "
-              "two literals and the decision order of round_fract's closure, Context::div's pre-shrinking test, repr_div's shifts: "
-              "C03_*_source_constants); (2) that UBig::log2_bounds / Word::log2_bounds really are bounds and that IEEE f32 addition and "
-              "multiplication are monotone are hypotheses of C03_round_fract_f32 (the first is C12's claim), as is precision < 2^24; beyond "
-              "2^24 digits nothing is claimed; (3) the checker's soundness theorem covers rational exact values; for sqrt the verdict "
-              "of check_contract on XSqrt values is trusted (the sqrt model itself is proved: C03_sqrt); (4) the digit estimates "
-              "digits_ub / digits_lb are abstract: addition holds for every estimate not below the true digit count, Context::div for "
-              "every estimate whatsoever when the dividend fits; (5) IBig arithmetic under the float layer is taken as Z (C01/C02).")
-TECHNIQUE = "Coq proof (rounding tables and constants regenerated from source, contract theorems, proved-sound contract checker) + extracted checker on a correspondence run"
+              "two literals and the decision order of round_fract's closure, Context::div's pre-shrinking test, repr_div's shifts, and in "
+              "round 3 the 2p / 2p / 3p factors and tests of mul.rs, the exactness condition and half test of root.rs, the remainder pick "
+              "and exponent of repr_rem, the zero shortcut of Context::sub and the single expansion step of repr_round_sum: "
+              "C03_*_source_constants, C03_long_source_constants); (2) that UBig::log2_bounds / Word::log2_bounds really are bounds is a "
+              "hypothesis of C03_round_fract_flocq32 (C12's claim), as is precision < 2^24; overflow of the f32 operations is excluded by "
+              "magnitude (operands below 2^128), not modelled; (3) the checker's soundness theorem covers rational exact values; for sqrt "
+              "the verdict of check_contract on XSqrt values is trusted (the sqrt model itself is proved: C03_sqrt, C03_sqrt_any_length); "
+              "(4) the digit estimates digits_ub / digits_lb are abstract: addition holds for every estimate not below the true digit "
+              "count, Context::div for every estimate whatsoever when the dividend fits; (5) IBig arithmetic under the float layer is taken "
+              "as Z (C01/C02), the ring arithmetic of repr_rem's ConstDivisor branch as Z modulo |rhs| (C13); (6) beyond the pre-shrinking "
+              "thresholds of mul / sqr / cubic / div and inside add_overlong_cancellation the contract does NOT hold (two open findings, "
+              "as-is models, refutation lemmas): there the run only checks that the implementation does what the as-is model predicts; "
+              "(7) the ownership forms of % and the Euclidean traits are one model each (they clone and forward).")
+TECHNIQUE = "Coq proof (rounding tables, constants and thresholds regenerated from source, contract theorems for operands of any length, Flocq binary32 for the f32 filter, proved-sound contract checker) + extracted checker on a correspondence run"
 RULE = ("cases = op x base {2,3,8,10,16,36} x six modes x precision {1..5, 7, 10, 17, 24, 53, 64, 100 (1000+ thorough)} x operand "
         "shapes: significand digit counts {1, 2, p-1, p}, exponent gaps {0, 1, p-d, p, p+1, p+2, just beyond / far beyond the "
         "precision, huge}, constructed ties and near-ties (half an ulp +- one unit of a far lower digit), cancellation to zero or one "
@@ -94,24 +111,35 @@ RULE = ("cases = op x base {2,3,8,10,16,36} x six modes x precision {1..5, 7, 10
         "operands of different precisions and with primitive / big-integer operands (incl. trailing zero digits, zero, beyond i64) in "
         "every ownership form; Round::round_fract called directly in bases {2,3,5,7,8,10,16,36} with low parts equal to, next to and "
         "within 1e-6 .. 5e-2 (in log2) of one half at precisions of 1..300 bits and 8 000 .. 60 000 bits (to 400 000 in the thorough "
-        "tier, clustered at 8192/16384/32768/65536 where the f32 spacing doubles). "
+        "tier, clustered at 8192/16384/32768/65536 where the f32 spacing doubles). Round 3 (about 10 % of the cases): the Context "
+        "methods with operands LONGER than p - addl/subl with digit counts {1, p, p+1, p+2, 2p, 2p+1, 3p+2} on either side, every "
+        "exponent gap class, constructed cancellations (low operand = high operand shifted +- 1 .. B^gap) that reach the class "
+        "add_overlong_cancellation and its border; mull/sqrl/cubicl/divl/invl at the thresholds 2p, 3p, p+digits(rhs) -1/0/+1 and far "
+        "beyond; sqrtl with 2p-1 .. 4p+1 digits, perfect-square prefixes with zero / non-zero cut-off part, the exact tie "
+        "(remainder = root, cut-off part = 1/4) +-1; rem / % / rem_euclid / div_euclid / div_rem_euclid in every ownership form with "
+        "the three exponent cases, ties of the nearest quotient, exact multiples, over-long dividends, zero divisors; Inverse for "
+        "FBig / &FBig; float (+|-) primitive / big integer in both orders. "
         "non-trivial = the exact result is not representable (rounding happened) or an alignment branch other than the trivial one ran; "
         "counted by the oracle (cls=inexact-*) over distinct case texts.")
 EXPLANATION = ("The verdict of every arithmetic case is computed by Contract.check_contract (Coq, extracted; proved sound for rational "
                "values in ContractProof.v): |r-x| < ulp_p(x), <= ulp/2 for HalfEven/HalfAway, side for Zero/Away/Up/Down, Exact iff r = x, "
-               "AddOne/SubOne truthful, x representable => exact, at most p+1 digits. x is the exact rational (or square root) of the "
-               "operands. rfract cases: the answer must be the one the exact comparison gives (Model.round_fract).")
+               "AddOne/SubOne truthful, x representable => exact, at most p+1 digits; the returned Repr must be normalised. x is the exact "
+               "rational (or square root) of the operands; for rem it is lhs - n * rhs with n the quotient rounded to nearest, ties away, "
+               "for rem_euclid lhs - q * rhs with 0 <= x < |rhs| (div_euclid must return that q). Over-long operands (ops ending in l) "
+               "are judged by the same contract; a violation is accepted as a known finding only inside the two recorded classes "
+               "(LongModel.add_short_class, mul/sqr/cubic/div_long_class) and only if the answer is exactly what the as-is model predicts. "
+               "rfract cases: the answer must be the one the exact comparison gives (Model.round_fract).")
 TRUSTED_BASE = [
-    "Coq 8.16.1 kernel; the four standard-library axioms of the classical reals (used only by the statements about f32 bounds and by the checker-soundness theorems)",
-    "tools/translate.py renders the six round_low_part bodies of float/src/round.rs and the listed constants / conditions of add.rs, root.rs, round.rs, div.rs faithfully",
-    "extraction: ExtrOcamlBasic + ExtrOcamlZBigInt + coq/extract/FastZ.v directives; zarith 1.12; oracle/driver_c03.ml computes the exact result of the operands as a fraction",
+    "Coq 8.16.1 kernel; the four standard-library axioms of the classical reals (used only by the statements about f32 bounds / Flocq's binary32 and by the checker-soundness theorems); Flocq 4.1.0 (installed library) for IEEE binary32",
+    "tools/translate.py renders the six round_low_part bodies of float/src/round.rs and the listed constants / conditions of add.rs, root.rs, round.rs, div.rs faithfully; tools/translate_c03_r3.py (strict regular expressions; reports unparsed and keeps the last copy otherwise) the factors / tests of mul.rs, the exactness condition and half test of root.rs, the pick and exponent of repr_rem, the zero shortcut of Context::sub, the expansion shift of repr_round_sum",
+    "extraction: ExtrOcamlBasic + ExtrOcamlZBigInt + coq/extract/FastZ.v directives; zarith 1.12; oracle/driver_c03.ml computes the exact result of the operands as a fraction (sum, product, quotient, nearest / Euclidean remainder)",
     "harness/src/bin/c03.rs and hlib (values moved through raw words, Repr::new, Context::new)",
-    "IBig arithmetic below the float layer behaves as Z (C01, C02, C09, C12 sqrt_rem)",
-    "UBig::log2_bounds and Word::log2_bounds enclose log2 (C12) and f32 + and * round monotonically: hypotheses of C03_round_fract_f32, additionally sampled by the rfract cases",
+    "IBig arithmetic below the float layer behaves as Z (C01, C02, C09, C12 sqrt_rem); the modular ring used by repr_rem behaves as Z modulo |rhs| (C13)",
+    "UBig::log2_bounds and Word::log2_bounds enclose log2 (C12): hypothesis of C03_round_fract_flocq32, additionally sampled by the rfract cases; the f32 operations of the filter do not overflow (magnitudes below 2^40)",
     "check_contract on square-root exact values (XSqrt) has no soundness theorem",
 ]
 ASSUMPTIONS = [
-    "operands are finite and fit the context precision (digits <= p), as the property states",
+    "operands are finite and fit the context precision (digits <= p), as the property states (the round-3 theorems and cases about longer operands go beyond this premise)",
     "ulp_p(x) = B^(floor(log_B |x|) - p + 1)",
 ]
 
@@ -475,7 +503,7 @@ def gen_long_sqrt(rng, tier, b, p):
         if k == 3:
             s = r * r * bj + rng.choice([0, 1, bj - 1, bj // 2])
         elif k == 4:
-            s = (r * r + r) * bj + bj // 4 + rng.choice([0, 0, 1, -1])        # at / next to the tie
+            s = (r * r + r) * bj + bj // 4 + rng.choice([0, 0, 1, -1, rng.range(1, max(1, bj // 4)), -rng.range(0, bj // 4)])   # at / next to / around the tie
         elif k == 5:
             s = (r * r + r) * bj + rng.choice([0, 1, bj - 1])
         elif k == 6:
